@@ -355,7 +355,8 @@ Section Dyn.
     (forall k, k <> v -> ids_of w' k = ids_of w k) /\
     (forall k, k <> v -> allocated w' k = allocated w k) /\ allocated w' v = true /\
     (forall k e1, lookup k (whash w) = Some e1 -> lookup k (whash w') = Some e1) /\
-    (forall id, In id ids -> ~ In id (owned_ids (whash w))).
+    (forall id, In id ids -> ~ In id (owned_ids (whash w))) /\
+    (exists ev, lookup v (whash w') = Some ev /\ ewires ev = None /\ eids ev = Some ids /\ oblock ev = ids).
   Proof.
     intros G L Hg H.
     assert (HvK : ~ In v Kt).
@@ -422,9 +423,11 @@ Section Dyn.
         + unfold allocated. rewrite Hlv. split; [intros _; split; [left; reflexivity | auto] | reflexivity].
         + unfold allocated. rewrite Hlk by exact Hkv.
           pose proof (g_alloc _ _ _ G k Hk) as A. unfold allocated in A. rewrite A. simpl. intuition congruence. }
-    split; [exact GI|]. repeat split; auto.
-    all: try (intros k Hk; unfold allocated; rewrite Hlk by exact Hk; reflexivity).
-    all: try (unfold allocated; rewrite Hlv; reflexivity).
+    split; [exact GI|]. split; [exact Hidsv|]. split; [exact Hnd|]. split; [exact Hidsk|].
+    split; [intros k Hk; unfold allocated; rewrite Hlk by exact Hk; reflexivity|].
+    split; [unfold allocated; rewrite Hlv; reflexivity|].
+    split; [exact Hlk'|]. split; [exact Hnew|].
+    exists ev. repeat split; auto.
   Qed.
 
   (* ---- GCWires *)
@@ -514,4 +517,827 @@ Section Dyn.
       + rewrite Hlk by exact Hku. pose proof (g_alloc _ _ _ G k Hk) as A. unfold allocated in A. rewrite A.
         simpl. intuition congruence.
   Qed.
+
+  (* ---- the alias rewiring: out[bit] = id *)
+  Lemma setids_inv w defd gcd v ev ids' :
+    ginv w defd gcd -> lookup v (whash w) = Some ev -> ewires ev = None -> In v NC ->
+    (forall old, eids ev = Some old -> length ids' = length old) ->
+    ((exists u, In u gcd /\ In v (fdesc steps0 u)) \/
+     forall id, In id ids' -> exists k e', lookup k (whash w) = Some e' /\ ~ In k Kt /\ In id (oblock e') /\ related k v) ->
+    ginv (set_ids w v ids') defd gcd /\
+    (forall k, k <> v -> lookup k (whash (set_ids w v ids')) = lookup k (whash w)) /\
+    (forall k, allocated (set_ids w v ids') k = allocated w k).
+  Proof.
+    intros G L Ew Hnc Hlen Hprov.
+    assert (HvK : ~ In v Kt) by (intros Hk; exact (kt_nc v Hk Hnc)).
+    pose proof (g_ewf _ _ _ G v ev L HvK) as Hwf. unfold entry_wf in Hwf. rewrite Ew in Hwf.
+    destruct Hwf as (b & old & Hb & Ho). specialize (Hlen old Ho).
+    unfold set_ids. rewrite L.
+    set (e' := mkEntry (ebase ev) (ewires ev) (Some ids')).
+    set (w' := mkWalloc (set_key v e' (whash w)) (wfree w) (wnext w)).
+    assert (Hob : oblock e' = oblock ev).
+    { unfold oblock, e'. cbn. rewrite Ew, Hb, Ho, Hlen. reflexivity. }
+    assert (Hlk : forall k, k <> v -> lookup k (whash w') = lookup k (whash w)).
+    { intros k Hk. cbn. apply lookup_set_key_neq. congruence. }
+    assert (Hlv : lookup v (whash w') = Some e') by (cbn; apply lookup_set_key_eq).
+    assert (Hlk' : forall k e1, lookup k (whash w) = Some e1 -> exists e2, lookup k (whash w') = Some e2 /\ oblock e2 = oblock e1).
+    { intros k e1 H. destruct (N.eq_dec k v) as [->|Hk].
+      - rewrite L in H. injection H as <-. eauto.
+      - rewrite <- Hlk in H by exact Hk. eauto. }
+    assert (Hown : owned_ids (whash w') = owned_ids (whash w)) by (cbn; apply (owned_set_key _ _ ev); auto).
+    assert (Hal : forall k, allocated w' k = allocated w k).
+    { intros k. unfold allocated. destruct (N.eq_dec k v) as [->|Hk]; [rewrite Hlv, L; reflexivity | rewrite Hlk by exact Hk; reflexivity]. }
+    split; [|split; [exact Hlk | exact Hal]].
+    constructor.
+    - cbn. rewrite keys_set_key by (rewrite L; discriminate). apply (g_keys _ _ _ G).
+    - rewrite Hown. apply (g_geo _ _ _ G).
+    - intros id Hid. rewrite Hown in Hid. apply (g_lt _ _ _ G id Hid).
+    - intros k e1 H Hk. destruct (N.eq_dec k v) as [->|Hkv].
+      + rewrite Hlv in H. injection H as <-. unfold entry_wf, e'. cbn. rewrite Ew. eauto.
+      + rewrite Hlk in H by exact Hkv. eapply g_ewf; eauto.
+    - intros k e1 H He. destruct (N.eq_dec k v) as [->|Hkv].
+      + rewrite Hlv in H. injection H as <-. discriminate.
+      + rewrite Hlk in H by exact Hkv. eapply g_args; eauto.
+    - intros k Hk. destruct (g_kt _ _ _ G k Hk) as (e1 & i1 & H1 & H2 & H3). exists e1, i1.
+      rewrite Hlk; [auto|]. intros ->. contradiction.
+    - destruct (g_z _ _ _ G) as (ez & eo & Z1 & Z2 & Z3 & Z4). exists ez, eo.
+      rewrite !Hlk; [auto| |]; intros E; subst; contradiction.
+    - intros k e1 H. destruct (N.eq_dec k v) as [->|Hkv].
+      + destruct Hprov as [Hd|Hp]; [left; exact Hd|right]. intros id Hid.
+        assert (Hids : ids_of w' v = ids') by (unfold ids_of; rewrite Hlv; reflexivity).
+        rewrite Hids in Hid. destruct (Hp id Hid) as (k2 & e2 & P1 & P2 & P3 & P4).
+        destruct (Hlk' _ _ P1) as (e3 & Q1 & Q2). exists k2, e3. rewrite Q2. auto.
+      + rewrite Hlk in H by exact Hkv. destruct (g_prov _ _ _ G k e1 H) as [Hd|Hp]; [left; exact Hd|right].
+        intros id Hid. assert (Hids : ids_of w' k = ids_of w k) by (unfold ids_of; rewrite Hlk by exact Hkv; reflexivity).
+        rewrite Hids in Hid. destruct (Hp id Hid) as (k2 & e2 & P1 & P2 & P3 & P4).
+        destruct (Hlk' _ _ P1) as (e3 & Q1 & Q2). exists k2, e3. rewrite Q2. auto.
+    - intros k Hk. rewrite Hal. apply (g_alloc _ _ _ G k Hk).
+  Qed.
+
+  (* ---- the operand loop *)
+  Definition ext (w w1 : walloc) : Prop :=
+    (forall k e1, lookup k (whash w) = Some e1 -> exists e2, lookup k (whash w1) = Some e2 /\ oblock e2 = oblock e1) /\
+    (forall k, allocated w k = true -> ids_of w1 k = ids_of w k) /\
+    (forall k, In k NC -> allocated w1 k = allocated w k).
+
+  Lemma ext_refl w : ext w w.
+  Proof. repeat split; eauto. Qed.
+
+  Lemma ext_trans a b c : ext a b -> ext b c -> ext a c.
+  Proof.
+    intros (A1 & A2 & A3) (B1 & B2 & B3). repeat split.
+    - intros k e1 H. destruct (A1 _ _ H) as (e2 & H2 & O2). destruct (B1 _ _ H2) as (e3 & H3 & O3).
+      exists e3. split; [exact H3 | congruence].
+    - intros k H. rewrite B2, A2; auto. apply allocated_lookup in H as (e & H).
+      destruct (A1 _ _ H) as (e2 & H2 & _). apply allocated_lookup. eauto.
+    - intros k H. rewrite B3, A3; auto.
+  Qed.
+
+  Definition opnd_ok (w : walloc) (i : val) : Prop :=
+    (vconst i = false -> allocated w (vid i) = true) /\ (vconst i = true -> ~ In (vid i) NC) /\
+    (forall b, lookup (vid i) args = Some b -> vbits i = b).
+
+  Lemma operand_ids_inv : forall ins w defd gcd wires w1,
+    ginv w defd gcd -> (forall i, In i ins -> opnd_ok w i) ->
+    operand_ids w zero ins = (wires, w1) ->
+    exists defd1, ginv w1 defd1 gcd /\ (forall k, In k NC -> (In k defd1 <-> In k defd)) /\
+      ext w w1 /\ (forall i, In i ins -> allocated w1 (vid i) = true) /\
+      wires = map (fun i => pad_operand N zero (vsigned i) (vbits i) (ids_of w1 (vid i))) ins.
+  Proof.
+    induction ins as [|i rest IH]; intros w defd gcd wires w1 G Hok H.
+    - simpl in H. injection H as <- <-. exists defd. split; [exact G|]. split; [tauto|]. split; [apply ext_refl|].
+      split; [intros i []|reflexivity].
+    - cbn [operand_ids] in H.
+      destruct (assigned_ids w (vid i) (vbits i)) as [ids wa] eqn:Ea.
+      destruct (operand_ids wa zero rest) as [r w2] eqn:Er. injection H as <- <-.
+      destruct (Hok i (or_introl eq_refl)) as (O1 & O2 & O3).
+      assert (Hstep : exists defda, ginv wa defda gcd /\ (forall k, In k NC -> (In k defda <-> In k defd)) /\
+                        ext w wa /\ allocated wa (vid i) = true /\ ids = ids_of wa (vid i) /\
+                        (forall k, allocated w k = true -> allocated wa k = true)).
+      { destruct (lookup (vid i) (whash w)) as [e|] eqn:L.
+        - destruct (aid_existing _ _ _ _ _ _ _ _ G L (fun b Hb => O3 b Hb) Ea) as (G' & I1 & I2 & I3 & I4 & _).
+          exists defd. split; [exact G'|]. split; [tauto|].
+          split; [split; [exact I4|split; [intros k _; apply I2|intros k _; apply I3]]|].
+          split; [rewrite I3; unfold allocated; rewrite L; reflexivity|].
+          split; [rewrite I2; exact I1|]. intros k Hk. rewrite I3. exact Hk.
+        - assert (Hc : vconst i = true).
+          { destruct (vconst i) eqn:C; [reflexivity|]. specialize (O1 eq_refl). unfold allocated in O1. rewrite L in O1. discriminate. }
+          specialize (O2 Hc).
+          destruct (aid_new _ _ _ _ _ _ _ G L (fun Hn => match O2 Hn with end) Ea) as (G' & I1 & _ & I2 & I3 & I4 & I5 & _ & _).
+          exists (vid i :: defd). split; [exact G'|].
+          split; [intros k Hk; split; [intros [E|Hk']; [subst k; contradiction | exact Hk'] | intros Hk'; right; exact Hk']|].
+          split; [split; [|split]|].
+          + intros k e1 Hl. exists e1. split; [apply I5, Hl | reflexivity].
+          + intros k Hk. apply I2. intros ->. unfold allocated in Hk. rewrite L in Hk. discriminate.
+          + intros k Hk. apply I3. intros ->. contradiction.
+          + split; [exact I4|]. split; [symmetry; exact I1|].
+            intros k Hk. rewrite I3; [exact Hk|]. intros ->. unfold allocated in Hk. rewrite L in Hk. discriminate. }
+      destruct Hstep as (defda & Ga & Da & Xa & Ala & Eids & Hmono).
+      assert (Hok' : forall j, In j rest -> opnd_ok wa j).
+      { intros j Hj. destruct (Hok j (or_intror Hj)) as (P1 & P2 & P3). repeat split; auto. }
+      destruct (IH wa defda gcd r w2 Ga Hok' Er) as (defd1 & G1 & D1 & X1 & Al1 & Ew).
+      exists defd1. split; [exact G1|]. split; [intros k Hk; rewrite D1, Da by exact Hk; tauto|].
+      split; [eapply ext_trans; eauto|].
+      destruct X1 as (X11 & X12 & X13).
+      split.
+      + intros j [<-|Hj]; [|auto]. apply allocated_lookup in Ala as (e & He).
+        destruct (X11 _ _ He) as (e2 & He2 & _). apply allocated_lookup. eauto.
+      + cbn [map]. rewrite <- Ew. f_equal. rewrite (X12 _ Ala), <- Eids. reflexivity.
+  Qed.
+
+  (* ------------------------------------------------------------------ *)
+  (** * The run along the gc'd list *)
+  Variable circs : list ccirc.
+  Hypothesis Hwfl : wfl (map fst args) steps0.
+  Hypothesis HNC : forall k, In k NC <-> In k (outs_l steps0 ++ map fst args).
+
+  Definition sok (s : instr) : Prop :=
+    match iop s with
+    | ORet => iout s = None /\ iret s = []
+    | OGC | OCirc => False
+    | _ => exists o, iout s = Some o /\ iret s = []
+    end /\
+    forall i, In i (iin s) -> (vconst i = true -> ~ In (vid i) NC) /\
+                              (forall b, lookup (vid i) args = Some b -> vbits i = b).
+  Hypothesis Hsok : Forall sok steps0.
+
+  Definition defd_rel (defd : list N) (E : list instr) : Prop :=
+    forall k, In k NC -> (In k defd <-> In k (outs_l E ++ map fst args)).
+
+  Definition live (gcd : list N) (E later : list instr) : Prop :=
+    forall u, In u gcd -> In u NC /\ In u (outs_l E ++ map fst args) /\
+                          forall x, In x (fdesc steps0 u) -> ~ In x (ncops_l later).
+
+  Lemma fdesc_nc u x : In u NC -> In x (fdesc steps0 u) -> In x NC.
+  Proof.
+    intros Hu Hx. unfold fdesc in Hx. apply fold_fstep_in in Hx as [[<-|[]]|Hx]; [exact Hu|].
+    apply HNC. apply in_or_app. auto.
+  Qed.
+
+  Lemma wstep_gc w i : wstep circs zero (gc_instr i) w = gc_wires w (vid i).
+  Proof. reflexivity. Qed.
+
+  Lemma gcs_run s E later : forall G rest w defd gcd,
+    Forall (fun g => exists i, g = gc_instr i /\ vconst i = false /\ In (vid i) (nc_ins s) /\
+                     forall x, In x (fdesc steps0 (vid i)) -> ~ In x (ncops_l later)) G ->
+    NoDup (map gcid G) -> (forall g, In g G -> allocated w (gcid g) = true) ->
+    (forall a, In a (nc_ins s) -> In a NC /\ In a (outs_l E ++ map fst args)) ->
+    ginv w defd gcd -> live gcd E later ->
+    (forall w' gcd', ginv w' defd gcd' -> live gcd' E later -> npr_steps circs zero one rest w' = true) ->
+    npr_steps circs zero one (G ++ rest) w = true.
+  Proof.
+    induction G as [|g G IH]; intros rest w defd gcd HF Hnd Hal Hs Gi Hl K.
+    - simpl. apply (K w gcd); assumption.
+    - inversion HF as [|? ? (i & -> & Hc & Hi & Hno) HF']; subst.
+      cbn [map] in Hnd. inversion Hnd as [|? ? Hn Hnd']; subst.
+      cbn [app npr_steps]. cbn [gc_instr iin forallb andb iop].
+      rewrite wstep_gc.
+      assert (Ha : allocated w (vid i) = true) by (apply (Hal (gc_instr i)); left; reflexivity).
+      apply allocated_lookup in Ha as (e & Le).
+      destruct (Hs _ Hi) as [Hinc Hidef].
+      destruct (gcw_inv w defd gcd (vid i) e Gi Le Hinc) as (w' & Hg & Gi' & Hlk & _).
+      rewrite Hg. simpl.
+      apply (IH rest w' defd (vid i :: gcd)); auto.
+      + intros g Hg0. unfold allocated. rewrite Hlk.
+        * apply (Hal g). right. exact Hg0.
+        * intros E0. apply Hn. cbn [gcid gc_instr igc]. rewrite <- E0. apply in_map. exact Hg0.
+      + intros u [<-|Hu]; [auto | apply Hl, Hu].
+  Qed.
+
+  Lemma used_from_gcform later g : gcform steps0 later g ->
+    forall v, In v (used_from g) -> exists t i, In t later /\ In i (iin t) /\ vid i = v.
+  Proof.
+    induction 1 as [|s later G g Hf IH [HG _]]; intros v Hv; [destruct Hv|].
+    unfold used_from in Hv. cbn [flat_map] in Hv. apply in_app_or in Hv as [Hv|Hv].
+    - apply in_map_iff in Hv as (i & <- & Hi). exists s, i. split; [left; reflexivity | auto].
+    - rewrite flat_map_app in Hv. apply in_app_or in Hv as [Hv|Hv].
+      + exfalso. clear -HG Hv. induction HG as [|x G (i & -> & _) _ IHG]; [destruct Hv|].
+        cbn [flat_map gc_instr iin map app] in Hv. exact (IHG Hv).
+      + destruct (IH v Hv) as (t & i & Ht & Hi & Hvi). exists t, i. split; [right; exact Ht | auto].
+  Qed.
+
+  Lemma in_mem_true x l : In x l -> mem x l = true.
+  Proof. apply mem_In. Qed.
+
+
+  (* where the rewired ids of an alias result come from *)
+  Lemma alias_prov_ok s o w2 defd2 gcd wires out ids' :
+    In s steps0 -> is_alias_op (iop s) = true -> iout s = Some o ->
+    ginv w2 defd2 gcd ->
+    (exists ev, lookup (vid o) (whash w2) = Some ev /\ oblock ev = out) ->
+    wires = map (fun i => pad_operand N zero (vsigned i) (vbits i) (ids_of w2 (vid i))) (iin s) ->
+    (forall i, In i (iin s) -> allocated w2 (vid i) = true) ->
+    (forall i, In i (iin s) -> ~ (exists u, In u gcd /\ In (vid i) (fdesc steps0 u))) ->
+    (forall i, In i (iin s) -> vconst i = true -> ~ In (vid i) NC) ->
+    alias_ids N zero (iop s) wires (map vcint (iin s)) out (vbits o) = Some ids' ->
+    forall id, In id ids' ->
+      exists k e', lookup k (whash w2) = Some e' /\ ~ In k Kt /\ In id (oblock e') /\ related k (vid o).
+  Proof.
+    intros Hin Hop Eout G2 (ev & Lo & Hob) Hw Hal Hnd Hc Eal id Hid.
+    assert (Hz : exists k e', lookup k (whash w2) = Some e' /\ ~ In k Kt /\ In zero (oblock e') /\ related k (vid o)).
+    { destruct (g_z _ _ _ G2) as (ez & eo & Z1 & Z2 & _). exists zk, ez. rewrite Z2.
+      repeat split; auto; [left; reflexivity | left; exact zk_nc]. }
+    destruct (alias_ids_incl N zero _ _ _ _ _ _ Eal id Hid) as [->|[Ho|(wj & Hwj & Hidw)]]; [exact Hz| |].
+    - exists (vid o), ev. rewrite Hob. repeat split; auto.
+      + intros Hk. apply (kt_nc _ Hk). apply HNC, in_or_app. left.
+        unfold outs_l. apply in_flat_map. exists s. split; [exact Hin|]. unfold outs_of. rewrite Eout. left. reflexivity.
+      + right. apply self_desc.
+    - rewrite Hw in Hwj. apply in_map_iff in Hwj as (i & <- & Hi).
+      apply pad_operand_incl in Hidw as [->|Hidw]; [exact Hz|].
+      pose proof (Hal i Hi) as Ha. apply allocated_lookup in Ha as (ei & Li).
+      destruct (g_prov _ _ _ G2 _ _ Li) as [Hd|Hp]; [exfalso; exact (Hnd i Hi Hd)|].
+      destruct (Hp id Hidw) as (k & e' & P1 & P2 & P3 & P4). exists k, e'. repeat split; auto.
+      destruct P4 as [P4|P4]; [left; exact P4|].
+      destruct (vconst i) eqn:C.
+      + left. unfold fdesc in P4. apply fold_fstep_in in P4 as [[E1|[]]|P4]; [rewrite E1; apply (Hc i Hi C)|].
+        exfalso. apply (Hc i Hi C). apply HNC, in_or_app. auto.
+      + right. eapply fdesc_closed; [exact Hwfl | exact P4|].
+        exists s, o. repeat split; auto. apply in_nc_ins. eauto.
+  Qed.
+
+  Lemma wstep_alias s w : is_alias_op (iop s) = true ->
+    wstep circs zero s w =
+    (let '(wires, w1) := operand_ids w zero (iin s) in
+     let '(out, w2) := match iout s with Some o => assigned_ids w1 (vid o) (vbits o) | None => ([], w1) end in
+     match iout s with
+     | None => None
+     | Some o => match alias_ids N zero (iop s) wires (map vcint (iin s)) out (vbits o) with
+                 | Some ids => Some (set_ids w2 (vid o) ids)
+                 | None => None
+                 end
+     end).
+  Proof.
+    intros H. unfold wstep. destruct (operand_ids w zero (iin s)) as [wires w1].
+    destruct (match iout s with Some o => assigned_ids w1 (vid o) (vbits o) | None => ([], w1) end) as [out w2].
+    destruct (iop s); try discriminate; reflexivity.
+  Qed.
+
+  Lemma step_run s rest E later w defd gcd :
+    steps0 = E ++ s :: later -> ginv w defd gcd -> defd_rel defd E -> live gcd E (s :: later) ->
+    (forall v, In v (used_from rest) -> In v (ncops_l later) \/ ~ In v NC) ->
+    (forall w' defd', ginv w' defd' gcd -> defd_rel defd' (E ++ [s]) ->
+        (forall a, In a (nc_ins s) -> allocated w' a = true) ->
+        npr_steps circs zero one rest w' = true) ->
+    npr_steps circs zero one (s :: rest) w = true.
+  Proof.
+    intros E0 Gi Hrel Hl Hrest K.
+    assert (Hin : In s steps0) by (rewrite E0; apply in_or_app; right; left; reflexivity).
+    pose proof (proj1 (Forall_forall _ _) Hsok s Hin) as [Hshape Hops].
+    destruct (Hwfl E s later E0) as [Wi Wo].
+    assert (Hncs : forall a, In a (nc_ins s) -> In a NC /\ In a (outs_l E ++ map fst args)).
+    { intros a Ha. specialize (Wi a Ha). split; [|exact Wi]. apply HNC.
+      apply in_app_or in Wi as [H|H]; apply in_or_app; [left|auto].
+      rewrite E0. unfold outs_l in *. rewrite flat_map_app. apply in_or_app. auto. }
+    assert (Hnotgcd : forall a, In a (ncops_l (s :: later)) -> ~ In a gcd).
+    { intros a Ha Hg. destruct (Hl a Hg) as (_ & _ & Hno). apply (Hno a); [apply self_desc | exact Ha]. }
+    assert (Hopnd : forall i, In i (iin s) -> opnd_ok w i).
+    { intros i Hi. destruct (Hops i Hi) as [H1 H2]. split; [|split; [exact H1 | exact H2]].
+      intros Hc. assert (Ha : In (vid i) (nc_ins s)) by (apply in_nc_ins; eauto).
+      destruct (Hncs _ Ha) as [Hn Hd]. apply (g_alloc _ _ _ Gi _ Hn). split; [apply Hrel; auto|].
+      apply Hnotgcd. unfold ncops_l. cbn [flat_map]. apply in_or_app. auto. }
+    cbn [npr_steps].
+    assert (C1 : forallb (fun i => vconst i || allocated w (vid i)) (iin s) = true).
+    { apply forallb_forall. intros i Hi. destruct (vconst i) eqn:C; [reflexivity|]. simpl.
+      apply (Hopnd i Hi). exact C. }
+    rewrite C1. cbn [andb].
+    assert (Hused : forall v, In v (used_from (s :: rest)) -> In v (ncops_l (s :: later)) \/ ~ In v NC).
+    { intros v Hv. unfold used_from in Hv. cbn [flat_map] in Hv. apply in_app_or in Hv as [Hv|Hv].
+      - apply in_map_iff in Hv as (i & <- & Hi). destruct (vconst i) eqn:C.
+        + right. apply (Hops i Hi), C.
+        + left. unfold ncops_l. cbn [flat_map]. apply in_or_app. left. apply in_nc_ins. eauto.
+      - destruct (Hrest v Hv) as [H|H]; [left|auto]. unfold ncops_l. cbn [flat_map]. apply in_or_app. auto. }
+    assert (Hnodoom : forall v, In v (ncops_l (s :: later)) \/ ~ In v NC ->
+              ~ (exists u, In u gcd /\ In v (fdesc steps0 u))).
+    { intros v Hv (u & Hu & Hd). destruct (Hl u Hu) as (Hun & _ & Hno). destruct Hv as [Hv|Hv].
+      - exact (Hno v Hd Hv).
+      - apply Hv. eapply fdesc_nc; eauto. }
+    assert (Hopdoom : forall i, In i (iin s) -> ~ (exists u, In u gcd /\ In (vid i) (fdesc steps0 u))).
+    { intros i Hi. apply Hnodoom, Hused. unfold used_from. cbn [flat_map]. apply in_or_app. left. apply in_map, Hi. }
+    (* classify the operator *)
+    assert (Hcls : (iop s = ORet /\ iout s = None /\ iret s = []) \/
+                   (exists o, iout s = Some o /\ iret s = [] /\ (iop s = OGen \/ is_alias_op (iop s) = true))).
+    { destruct (iop s); try contradiction; try (right; destruct Hshape as (o & H1 & H2); exists o; auto). left. tauto. }
+    destruct Hcls as [(Eop & Eout & Eret)|(o & Eout & Eret & Ecl)].
+    - (* ret *)
+      unfold wstep. destruct (operand_ids w zero (iin s)) as [wires w1] eqn:Eo.
+      destruct (operand_ids_inv _ _ _ _ _ _ Gi Hopnd Eo) as (defd1 & G1 & D1 & X1 & Al1 & Ew).
+      rewrite Eout, Eop. cbn [andb]. apply (K w1 defd1 G1).
+      + intros k Hk. rewrite D1 by exact Hk. unfold outs_l. rewrite flat_map_app. cbn [flat_map].
+        unfold outs_of at 2. rewrite Eout, Eret. cbn [map app]. rewrite app_nil_r. apply Hrel, Hk.
+      + intros a Ha. apply in_nc_ins in Ha as (i & Hi & _ & <-). apply Al1, Hi.
+    - (* a step with a new result value *)
+      assert (Hw : wstep circs zero s w =
+                   (let '(wires, w1) := operand_ids w zero (iin s) in
+                    let '(out, w2) := assigned_ids w1 (vid o) (vbits o) in
+                    if is_alias_op (iop s) then
+                      match alias_ids N zero (iop s) wires (map vcint (iin s)) out (vbits o) with
+                      | Some ids => Some (set_ids w2 (vid o) ids)
+                      | None => None
+                      end
+                    else Some w2)).
+      { destruct Ecl as [Eg|Ea].
+        - unfold wstep. rewrite Eout, Eg. reflexivity.
+        - rewrite (wstep_alias s w Ea), Eout, Ea. reflexivity. }
+      rewrite Hw. clear Hw.
+      destruct (operand_ids w zero (iin s)) as [wires w1] eqn:Eo.
+      destruct (operand_ids_inv _ _ _ _ _ _ Gi Hopnd Eo) as (defd1 & G1 & D1 & X1 & Al1 & Ew).
+      assert (Hrel1 : defd_rel defd1 E) by (intros k Hk; rewrite D1 by exact Hk; apply Hrel, Hk).
+      assert (Halloc1 : forall a, In a (nc_ins s) -> allocated w1 a = true).
+      { intros a Ha. apply in_nc_ins in Ha as (i & Hi & _ & <-). apply Al1, Hi. }
+      assert (Hov : In (vid o) (outs_of s)) by (unfold outs_of; rewrite Eout; left; reflexivity).
+      assert (HoNC : In (vid o) NC).
+      { apply HNC, in_or_app. left. unfold outs_l. apply in_flat_map. exists s. auto. }
+      assert (HoNew : ~ In (vid o) (outs_l E ++ map fst args)) by (apply Wo, Hov).
+      assert (Lo : lookup (vid o) (whash w1) = None).
+      { destruct (lookup (vid o) (whash w1)) eqn:L; [|reflexivity]. exfalso. apply HoNew, (Hrel1 _ HoNC).
+        apply (g_alloc _ _ _ G1 _ HoNC). unfold allocated. rewrite L. reflexivity. }
+      assert (Hog : In (vid o) NC -> ~ In (vid o) gcd).
+      { intros _ Hg. destruct (Hl _ Hg) as (_ & Hd & _). exact (HoNew Hd). }
+      destruct (assigned_ids w1 (vid o) (vbits o)) as [out w2] eqn:Ea.
+      destruct (aid_new _ _ _ _ _ _ _ G1 Lo Hog Ea) as (G2 & I1 & Ind & I2 & I3 & I4 & I5 & I6 & (ev & Lev & Ewv & Eiv & Hobv)).
+      assert (Hrel2 : defd_rel (vid o :: defd1) (E ++ [s])).
+      { intros k Hk. unfold outs_l. rewrite flat_map_app. cbn [flat_map]. rewrite app_nil_r.
+        unfold outs_of at 2. rewrite Eout, Eret. cbn [map app]. specialize (Hrel1 k Hk). fold (outs_l E). split.
+        - intros [<-|H]; [apply in_or_app; left; apply in_or_app; right; left; reflexivity|].
+          apply Hrel1 in H. apply in_app_or in H as [H|H]; apply in_or_app; [left; apply in_or_app; auto | auto].
+        - intros H. apply in_app_or in H as [H|H].
+          + apply in_app_or in H as [H|[H|[]]]; [right; apply Hrel1, in_or_app; auto | left; exact H].
+          + right. apply Hrel1, in_or_app. auto. }
+      assert (Hne : forall i, In i (iin s) -> vid i <> vid o).
+      { intros i Hi Heq. pose proof (Al1 i Hi) as A. unfold allocated in A. rewrite Heq, Lo in A. discriminate. }
+      assert (Halloc2 : forall a, In a (nc_ins s) -> allocated w2 a = true).
+      { intros a Ha. apply in_nc_ins in Ha as (i & Hi & _ & <-). rewrite I3 by (apply Hne, Hi). apply Al1, Hi. }
+      destruct (is_alias_op (iop s)) eqn:Eal.
+      + (* alias *)
+        destruct (alias_ids N zero (iop s) wires (map vcint (iin s)) out (vbits o)) as [ids'|] eqn:Eai.
+        2:{ destruct (iop s); try discriminate; reflexivity. }
+        assert (Hnotgc : match iop s with OGen | OCirc => false | _ => true end = true)
+          by (destruct (iop s); try discriminate; reflexivity).
+        assert (Hchk : (match iop s with
+                        | OGen | OCirc => write_ok (set_ids w2 (vid o) ids') (flat_map (ids_of (set_ids w2 (vid o) ids')) (outs_of s))
+                                            (outs_of s) (used_from (s :: rest)) [zero; one]
+                        | _ => true end) = true) by (destruct (iop s); try discriminate; reflexivity).
+        rewrite Hchk. cbn [andb].
+        assert (Hprov : forall id, In id ids' ->
+                  exists k e', lookup k (whash w2) = Some e' /\ ~ In k Kt /\ In id (oblock e') /\ related k (vid o)).
+        { assert (Hwires : wires = map (fun i => pad_operand N zero (vsigned i) (vbits i) (ids_of w2 (vid i))) (iin s)).
+          { rewrite Ew. apply map_ext_in. intros i Hi. rewrite I2 by (apply Hne, Hi). reflexivity. }
+          assert (Hal2 : forall i, In i (iin s) -> allocated w2 (vid i) = true).
+          { intros i Hi. rewrite I3 by (apply Hne, Hi). apply Al1, Hi. }
+          assert (Hconst : forall i, In i (iin s) -> vconst i = true -> ~ In (vid i) NC).
+          { intros i Hi. apply (Hops i Hi). }
+          exact (alias_prov_ok s o w2 (vid o :: defd1) gcd wires out ids' Hin Eal Eout G2
+                   (ex_intro _ ev (conj Lev Hobv)) Hwires Hal2 Hopdoom Hconst Eai). }
+        destruct (setids_inv w2 _ gcd (vid o) ev ids' G2 Lev Ewv HoNC) as (G3 & L3 & A3).
+        * intros old Ho. rewrite Eiv in Ho. injection Ho as <-. eapply alias_ids_length; eauto.
+        * right. exact Hprov.
+        * apply (K _ _ G3 Hrel2). intros a Ha. rewrite A3. apply Halloc2, Ha.
+      + (* a circuit step *)
+        destruct Ecl as [Eg|Ea']; [|congruence]. rewrite Eg.
+        assert (Hwr : write_ok w2 (flat_map (ids_of w2) (outs_of s)) (outs_of s) (used_from (s :: rest)) [zero; one] = true).
+        { unfold outs_of at 1 2. rewrite Eout, Eret. cbn [map app flat_map]. rewrite I1, app_nil_r.
+          unfold write_ok. apply andb_true_intro. split.
+          - (* the zero and one wires are owned: never handed out again *)
+            apply forallb_forall. intros id Hid. destruct (g_z _ _ _ G1) as (ez & eo & Z1 & Z2 & Z3 & Z4).
+            assert (Hnz : ~ In id [zero; one]).
+            { intros [<-|[<-|[]]]; apply (I6 _ Hid).
+              - apply (owned_in _ zk ez); auto. rewrite Z2. left. reflexivity.
+              - apply (owned_in _ ok eo); auto. rewrite Z4. left. reflexivity. }
+            apply mem_false in Hnz. rewrite Hnz. reflexivity.
+          - apply forallb_forall. intros v Hv.
+            destruct (N.eq_dec v (vid o)) as [->|Hvo]; [rewrite (in_mem_true (vid o) [vid o]); [reflexivity | left; reflexivity]|].
+            apply orb_true_iff. right. rewrite I2 by exact Hvo.
+            apply forallb_forall. intros id Hid.
+            assert (Hni : ~ In id (ids_of w1 v)).
+            { intros Hiv. unfold ids_of in Hiv. destruct (lookup v (whash w1)) as [e|] eqn:Lv; [|destruct Hiv].
+              destruct (g_prov _ _ _ G1 v e Lv) as [Hd|Hp]; [exact (Hnodoom v (Hused v Hv) Hd)|].
+              assert (Hiv' : In id (ids_of w1 v)) by (unfold ids_of; rewrite Lv; exact Hiv).
+              destruct (Hp id Hiv') as (k & e' & P1 & P2 & P3 & _).
+              apply (I6 id Hid). eapply owned_in; eauto. }
+            apply mem_false in Hni. rewrite Hni. reflexivity. }
+        rewrite Hwr. cbn [andb]. apply (K _ _ G2 Hrel2 Halloc2).
+  Qed.
+
+  Lemma outs_l_app a b : outs_l (a ++ b) = outs_l a ++ outs_l b.
+  Proof. unfold outs_l. apply flat_map_app. Qed.
+
+  Lemma run_npr : forall later g, gcform steps0 later g ->
+    forall E w defd gcd, steps0 = E ++ later -> ginv w defd gcd -> defd_rel defd E -> live gcd E later ->
+    npr_steps circs zero one g w = true.
+  Proof.
+    induction 1 as [|s later G g' Hf IH HG]; intros E w defd gcd E0 Gi Hrel Hl; [reflexivity|].
+    destruct HG as [HGF HGN].
+    destruct (Hwfl E s later E0) as [Wi Wo].
+    apply (step_run s (G ++ g') E later w defd gcd E0 Gi Hrel Hl).
+    - intros v Hv. unfold used_from in Hv. rewrite flat_map_app in Hv. apply in_app_or in Hv as [Hv|Hv].
+      + exfalso. clear -HGF Hv. induction HGF as [|x G (i & -> & _) _ IHG]; [destruct Hv|].
+        cbn [flat_map gc_instr iin map app] in Hv. exact (IHG Hv).
+      + destruct (used_from_gcform later g' Hf v Hv) as (t & i & Ht & Hi & <-).
+        assert (Hts : In t steps0) by (rewrite E0; apply in_or_app; right; right; exact Ht).
+        destruct (proj1 (Forall_forall _ _) Hsok t Hts) as [_ Hops].
+        destruct (vconst i) eqn:C; [right; apply (Hops i Hi), C|].
+        left. unfold ncops_l. apply in_flat_map. exists t. split; [exact Ht|]. apply in_nc_ins. eauto.
+    - intros w' defd' G' Hrel' Hal'.
+      assert (E1 : steps0 = (E ++ [s]) ++ later) by (rewrite <- app_assoc; exact E0).
+      assert (Hs' : forall a, In a (nc_ins s) -> In a NC /\ In a (outs_l (E ++ [s]) ++ map fst args)).
+      { intros a Ha. specialize (Wi a Ha). split.
+        - apply HNC. apply in_app_or in Wi as [H|H]; apply in_or_app; [left|auto].
+          rewrite E0, outs_l_app. apply in_or_app. auto.
+        - rewrite outs_l_app. apply in_app_or in Wi as [H|H]; apply in_or_app; [left; apply in_or_app; auto | auto]. }
+      assert (Hl' : live gcd (E ++ [s]) later).
+      { intros u Hu. destruct (Hl u Hu) as (L1 & L2 & L3). split; [exact L1|]. split.
+        - rewrite outs_l_app. apply in_app_or in L2 as [H|H]; apply in_or_app; [left; apply in_or_app; auto | auto].
+        - intros x Hx Hin. apply (L3 x Hx). unfold ncops_l. cbn [flat_map]. apply in_or_app. auto. }
+      apply (gcs_run s (E ++ [s]) later G g' w' defd' gcd HGF HGN); auto.
+      + intros g Hg. rewrite Forall_forall in HGF. destruct (HGF g Hg) as (i & -> & _ & Hi & _).
+        cbn [gcid gc_instr igc]. apply Hal', Hi.
+      + intros w'' gcd' G'' Hl''. apply (IH (E ++ [s]) w'' defd' gcd' E1 G'' Hrel' Hl'').
+  Qed.
 End Dyn.
+
+(* ------------------------------------------------------------------ *)
+(** * The initial state of Program.Stream satisfies the invariant *)
+
+Fixpoint argents (al : list (N * nat)) (off : N) : list (N * entry) :=
+  match al with
+  | [] => []
+  | (k, n) :: t => (k, mkEntry None (Some (block off n)) None) :: argents t (off + N.of_nat n)
+  end.
+
+Definition total (al : list (N * nat)) : N := fold_right (fun a acc => (N.of_nat (snd a) + acc)%N) 0%N al.
+
+Lemma input_fold : forall al w,
+  NoDup (map fst al) -> (forall k, In k (map fst al) -> lookup k (whash w) = None) ->
+  fold_left (fun w a => input_wires w (fst a) (snd a)) al w
+  = mkWalloc (rev (argents al (wnext w)) ++ whash w) (wfree w) (wnext w + total al).
+Proof.
+  induction al as [|[k n] t IH]; intros w Hnd Hnew.
+  - simpl. rewrite N.add_0_r. destruct w; reflexivity.
+  - cbn [fold_left fst snd]. inversion Hnd as [|? ? Hk Hnd']; subst.
+    unfold input_wires at 2. rewrite (Hnew k (or_introl eq_refl)).
+    rewrite IH; [|exact Hnd'|].
+    + cbn [whash wfree wnext argents total fold_right snd rev]. rewrite <- app_assoc. cbn [app].
+      fold (total t). f_equal; try reflexivity; lia.
+    + intros k' Hk'. cbn [whash lookup]. destruct (N.eqb k' k) eqn:E.
+      * apply N.eqb_eq in E. subst. contradiction.
+      * apply Hnew. right. exact Hk'.
+Qed.
+
+Lemma argents_keys al : forall off, map fst (argents al off) = map fst al.
+Proof. induction al as [|[k n] t IH]; intros off; simpl; [reflexivity | rewrite IH; reflexivity]. Qed.
+
+Lemma argents_in al : forall off k e, In (k, e) (argents al off) ->
+  exists b n, e = mkEntry None (Some (block b n)) None /\ In (k, n) al /\
+              (off <= b)%N /\ (b + N.of_nat n <= off + total al)%N.
+Proof.
+  induction al as [|[k0 n0] t IH]; intros off k e H; [destruct H|].
+  cbn [argents] in H. destruct H as [H|H].
+  - injection H as <- <-. exists off, n0. repeat split; auto; [left; reflexivity | lia | cbn; lia].
+  - destruct (IH _ _ _ H) as (b & n & E & I & L1 & L2). exists b, n. repeat split; auto; [right; exact I | lia | cbn [total fold_right snd] in *; fold (total t); lia].
+Qed.
+
+Lemma argents_ids al : forall off,
+  NoDup (flat_map (fun p => oblock (snd p)) (argents al off)) /\
+  forall id, In id (flat_map (fun p => oblock (snd p)) (argents al off)) -> (off <= id < off + total al)%N.
+Proof.
+  induction al as [|[k n] t IH]; intros off; [split; [constructor | intros id []]|].
+  cbn [argents flat_map snd]. destruct (IH (off + N.of_nat n)%N) as [I1 I2].
+  assert (Hob : oblock (mkEntry None (Some (block off n)) None) = block off n) by reflexivity.
+  rewrite Hob. split.
+  - apply NoDup_app_iff. repeat split; [apply NoDup_block | exact I1|].
+    intros x Hx Hx2. apply in_block in Hx. apply I2 in Hx2. lia.
+  - intros id Hid. cbn [total fold_right snd]. fold (total t). apply in_app_or in Hid as [H|H].
+    + apply in_block in H. lia.
+    + apply I2 in H. lia.
+Qed.
+
+Definition constents (zero one : N) (cs : list (N * list bool)) : list (N * entry) :=
+  map (fun c => let ids := map (fun b : bool => if b then one else zero) (snd c) in
+                (fst c, mkEntry (match ids with [] => None | b :: _ => Some b end) (Some ids) (Some ids))) cs.
+
+Lemma consts_fold zero one : forall cs w,
+  NoDup (map fst cs) -> (forall k, In k (map fst cs) -> lookup k (whash w) = None) ->
+  define_constants w zero one cs
+  = mkWalloc (rev (constents zero one cs) ++ whash w) (wfree w) (wnext w).
+Proof.
+  unfold define_constants. induction cs as [|[k bits] t IH]; intros w Hnd Hnew.
+  - simpl. destruct w; reflexivity.
+  - cbn [fold_left]. inversion Hnd as [|? ? Hk Hnd']; subst.
+    unfold allocated at 2. rewrite (Hnew k (or_introl eq_refl)).
+    rewrite IH; [|exact Hnd'|].
+    + unfold set_wires. cbn [whash wfree wnext constents map rev fst snd]. rewrite <- app_assoc. reflexivity.
+    + intros k' Hk'. unfold set_wires. cbn [whash lookup]. destruct (N.eqb k' k) eqn:E.
+      * apply N.eqb_eq in E. subst. contradiction.
+      * apply Hnew. right. exact Hk'.
+Qed.
+
+Lemma in_lookup {A} k (a : A) l : NoDup (map fst l) -> In (k, a) l -> lookup k l = Some a.
+Proof.
+  induction l as [|[k2 a2] t IH]; intros Hnd H; [destruct H|]. simpl in *. inversion Hnd as [|? ? Hn Hd]; subst.
+  destruct H as [H|H].
+  - injection H as -> ->. rewrite N.eqb_refl. reflexivity.
+  - destruct (N.eqb k k2) eqn:E; [|apply IH; auto]. apply N.eqb_eq in E. subst k2.
+    exfalso. apply Hn. apply in_map_iff. exists (k, a). auto.
+Qed.
+
+Lemma nodupb_NoDup l : nodupb l = true -> NoDup l.
+Proof.
+  induction l as [|x t IH]; intros H; [constructor|]. simpl in H. apply andb_prop in H as [H1 H2].
+  constructor; [|apply IH, H2]. apply mem_false. destruct (mem x t); [discriminate | reflexivity].
+Qed.
+
+Lemma ss_w_vgarble st step c ins outs : ss_w (vgarble st step c ins outs) = ss_w st /\ ss_zero (vgarble st step c ins outs) = ss_zero st.
+Proof. unfold vgarble. destruct (garble_circ_bits (ss_cs st) c ins outs). split; reflexivity. Qed.
+
+(* the allocator and the zero/one wire ids after the initialisation *)
+Definition init_w (p : sprog) : walloc :=
+  let n := total (sp_args p) in
+  mkWalloc (rev (constents n (n + 1) (sp_consts p))
+            ++ (sp_one_key p, mkEntry (Some (n + 1)%N) (Some [(n + 1)%N]) (Some [(n + 1)%N]))
+            :: (sp_zero_key p, mkEntry (Some n) (Some [n]) (Some [n]))
+            :: rev (argents (sp_args p) 0))
+           [] (n + 2).
+
+Definition init_alloc (p : sprog) : walloc * N :=
+  let w1 := fold_left (fun w a => input_wires w (fst a) (snd a)) (sp_args p) walloc0 in
+  let '(zw, w2) := assigned_wires w1 (sp_zero_key p) 1 in
+  let zero := nth 0 zw 0%N in
+  let '(ow, w3) := assigned_wires w2 (sp_one_key p) 1 in
+  let one := nth 0 ow 0%N in
+  (define_constants w3 zero one (sp_consts p), zero).
+
+Lemma stream_init_alloc p xy :
+  (ss_w (stream_init p xy), ss_zero (stream_init p xy)) = init_alloc p.
+Proof.
+  unfold stream_init, init_alloc.
+  destruct (assigned_wires _ (sp_zero_key p) 1) as [zw w2].
+  match goal with |- context [vgarble ?st 0 zero_circ ?i ?o] =>
+    destruct (ss_w_vgarble st 0 zero_circ i o) as [V1 V2]; set (st1 := vgarble st 0 zero_circ i o) in * end.
+  cbn [ss_w ss_zero] in V1, V2. rewrite V1.
+  destruct (assigned_wires w2 (sp_one_key p) 1) as [ow w3].
+  match goal with |- context [vgarble ?st 0 one_circ ?i ?o] =>
+    destruct (ss_w_vgarble st 0 one_circ i o) as [V3 V4]; set (st2 := vgarble st 0 one_circ i o) in * end.
+  unfold with_w in *. cbn [ss_w ss_zero] in *. rewrite V4, V2. reflexivity.
+Qed.
+
+Lemma init_alloc_eq p :
+  NoDup (map fst (sp_args p) ++ const_keys p) ->
+  init_alloc p = (init_w p, total (sp_args p)).
+Proof.
+  intros Hnd. unfold const_keys in Hnd.
+  apply NoDup_app_iff in Hnd as (Ha & Hc & Hac).
+  inversion Hc as [|? ? Hz Hc1]; subst. inversion Hc1 as [|? ? Ho Hc2]; subst.
+  unfold init_alloc.
+  rewrite (input_fold (sp_args p) walloc0 Ha) by (intros k _; reflexivity).
+  cbn [walloc0 whash wfree wnext]. rewrite app_nil_r, N.add_0_l.
+  set (n := total (sp_args p)).
+  set (H1 := rev (argents (sp_args p) 0)).
+  assert (Hk1 : forall k e, In k (sp_zero_key p :: sp_one_key p :: map fst (sp_consts p)) -> lookup k H1 = Some e -> False).
+  { intros k e Hk L. apply lookup_in in L. apply (Hac k); [|exact Hk].
+    rewrite <- (argents_keys (sp_args p) 0). apply in_map_iff. exists (k, e). split; [reflexivity|].
+    apply in_rev. exact L. }
+  assert (Lz : lookup (sp_zero_key p) H1 = None).
+  { destruct (lookup (sp_zero_key p) H1) eqn:L; [|reflexivity]. exfalso. eapply Hk1; eauto. left. reflexivity. }
+  unfold assigned_wires at 1. cbn [whash]. rewrite Lz. cbn [block seq map nth wnext whash wfree].
+  rewrite N.add_0_r.
+  assert (Lo : lookup (sp_one_key p) ((sp_zero_key p, mkEntry (Some n) (Some [n]) (Some [n])) :: H1) = None).
+  { cbn [lookup]. destruct (N.eqb (sp_one_key p) (sp_zero_key p)) eqn:E.
+    - apply N.eqb_eq in E. exfalso. apply Hz. left. exact E.
+    - destruct (lookup (sp_one_key p) H1) eqn:L; [|reflexivity]. exfalso. eapply Hk1; eauto. right. left. reflexivity. }
+  unfold assigned_wires. cbn [whash]. rewrite Lo. cbn [block seq map nth wnext whash wfree].
+  rewrite N.add_0_r.
+  rewrite consts_fold; [|exact Hc2|].
+  - unfold init_w. fold n. cbn [whash wfree wnext].
+    replace (n + N.of_nat 1)%N with (n + 1)%N by lia.
+    replace (n + 1 + N.of_nat 1)%N with (n + 2)%N by lia. reflexivity.
+  - intros k Hk. cbn [whash lookup].
+    destruct (N.eqb k (sp_one_key p)) eqn:E1; [apply N.eqb_eq in E1; subst; contradiction|].
+    destruct (N.eqb k (sp_zero_key p)) eqn:E2; [apply N.eqb_eq in E2; subst; exfalso; apply Hz; right; exact Hk|].
+    destruct (lookup k H1) eqn:L; [|reflexivity]. exfalso. eapply Hk1; eauto. right. right. exact Hk.
+Qed.
+
+Lemma nodup_flat_map_rev {A B} (f : A -> list B) : forall l, NoDup (flat_map f l) -> NoDup (flat_map f (rev l)).
+Proof.
+  induction l as [|x t IH]; intros H; [constructor|]. simpl in *. rewrite flat_map_app. simpl. rewrite app_nil_r.
+  apply NoDup_app_iff in H as (H1 & H2 & H3). apply NoDup_app_iff. repeat split; auto.
+  intros y Hy Hx. apply in_flat_map in Hy as (z & Hz & Hy). apply in_rev in Hz.
+  apply (H3 y Hx). apply in_flat_map. eauto.
+Qed.
+
+Lemma owned_consts Kt l : (forall q, In q l -> In (fst q) Kt) -> owned_ids Kt l = [].
+Proof.
+  induction l as [|q t IH]; intros H; [reflexivity|]. unfold owned_ids in *. simpl.
+  rewrite (proj2 (mem_In _ _) (H q (or_introl eq_refl))). simpl. apply IH. intros q' Hq. apply H. right. exact Hq.
+Qed.
+
+Lemma owned_args Kt l : (forall q, In q l -> ~ In (fst q) Kt) -> owned_ids Kt l = flat_map (fun q => oblock (snd q)) l.
+Proof.
+  induction l as [|q t IH]; intros H; [reflexivity|]. unfold owned_ids in *. simpl.
+  rewrite (proj2 (mem_false _ _) (H q (or_introl eq_refl))). f_equal. apply IH. intros q' Hq. apply H. right. exact Hq.
+Qed.
+
+Lemma owned_app Kt a b : owned_ids Kt (a ++ b) = owned_ids Kt a ++ owned_ids Kt b.
+Proof. unfold owned_ids. apply flat_map_app. Qed.
+
+Lemma init_ginv p steps0 :
+  let Kt := map fst (sp_consts p) in
+  let NC := outs_l steps0 ++ map fst (sp_args p) in
+  let n := total (sp_args p) in
+  NoDup (map fst (sp_args p) ++ const_keys p) ->
+  (forall k, In k (const_keys p) -> ~ In k NC) ->
+  ginv Kt (sp_zero_key p) (sp_one_key p) n (n + 1) NC steps0 (sp_args p) (init_w p) (map fst (sp_args p)) [].
+Proof.
+  intros Kt NC n Hnd Hck. unfold const_keys in *.
+  pose proof Hnd as Hnd0.
+  apply NoDup_app_iff in Hnd as (Ha & Hc & Hac).
+  inversion Hc as [|? ? Hz Hc1]; subst. inversion Hc1 as [|? ? Ho Hc2]; subst.
+  set (zk := sp_zero_key p) in *. set (ok := sp_one_key p) in *.
+  set (C := constents n (n + 1) (sp_consts p)).
+  set (A := argents (sp_args p) 0).
+  set (eo := mkEntry (Some (n + 1)%N) (Some [(n + 1)%N]) (Some [(n + 1)%N])).
+  set (ez := mkEntry (Some n) (Some [n]) (Some [n])).
+  assert (HW : whash (init_w p) = rev C ++ (ok, eo) :: (zk, ez) :: rev A) by reflexivity.
+  assert (HkC : map fst C = Kt) by (unfold C, constents; rewrite map_map; reflexivity).
+  assert (HkA : map fst A = map fst (sp_args p)) by apply argents_keys.
+  assert (HzKt : ~ In zk Kt) by (intros H; apply Hz; right; exact H).
+  assert (HaK : forall k, In k (map fst (sp_args p)) -> ~ In k Kt /\ k <> zk /\ k <> ok).
+  { intros k Hk. specialize (Hac k Hk). repeat split.
+    - intros H. apply Hac. right. right. exact H.
+    - intros ->. apply Hac. left. reflexivity.
+    - intros ->. apply Hac. right. left. reflexivity. }
+  assert (Hkeys : NoDup (map fst (whash (init_w p)))).
+  { rewrite HW, map_app. cbn [map fst]. rewrite !map_rev, HkC, HkA.
+    apply NoDup_app_iff. split; [apply NoDup_rev, Hc2|]. split.
+    - constructor; [|constructor; [|apply NoDup_rev, Ha]].
+      + intros [H|H]; [apply Hz; left; symmetry; exact H|]. apply in_rev in H. apply (HaK _ H). reflexivity.
+      + intros H. apply in_rev in H. apply (proj1 (proj2 (HaK _ H))). reflexivity.
+    - intros x Hx Hin. apply in_rev in Hx. destruct Hin as [<-|[<-|Hin]]; [exact (Ho Hx) | exact (HzKt Hx)|].
+      apply in_rev in Hin. exact (proj1 (HaK _ Hin) Hx). }
+  assert (Hin : forall k e, lookup k (whash (init_w p)) = Some e ->
+                 (In (k, e) C /\ In k Kt) \/ (k = ok /\ e = eo) \/ (k = zk /\ e = ez) \/ (In (k, e) A /\ In k (map fst (sp_args p)))).
+  { intros k e L. apply lookup_in in L. rewrite HW in L. apply in_app_or in L as [L|[L|[L|L]]].
+    - apply in_rev in L. left. split; [exact L|]. rewrite <- HkC. apply in_map_iff. exists (k, e). auto.
+    - injection L as <- <-. auto.
+    - injection L as <- <-. auto.
+    - apply in_rev in L. right. right. right. split; [exact L|]. rewrite <- HkA. apply in_map_iff. exists (k, e). auto. }
+  assert (Hlk : forall k e, In (k, e) (whash (init_w p)) -> lookup k (whash (init_w p)) = Some e)
+    by (intros k e H; apply in_lookup; auto).
+  assert (Lz : lookup zk (whash (init_w p)) = Some ez).
+  { apply Hlk. rewrite HW. apply in_or_app. right. right. left. reflexivity. }
+  assert (Lo : lookup ok (whash (init_w p)) = Some eo).
+  { apply Hlk. rewrite HW. apply in_or_app. right. left. reflexivity. }
+  assert (HC : forall k e, In (k, e) C -> exists ids, e = mkEntry (match ids with [] => None | b :: _ => Some b end) (Some ids) (Some ids) /\
+                                          forall id, In id ids -> id = n \/ id = (n + 1)%N).
+  { intros k e H. unfold C, constents in H. apply in_map_iff in H as (c & E & _). injection E as _ <-.
+    eexists. split; [reflexivity|]. intros id Hid. apply in_map_iff in Hid as (b & <- & _). destruct b; auto. }
+  assert (Hown : owned_ids Kt (whash (init_w p)) = (n + 1)%N :: n :: flat_map (fun q => oblock (snd q)) (rev A)).
+  { rewrite HW, owned_app. rewrite owned_consts.
+    2:{ intros q Hq. apply in_rev in Hq. rewrite <- HkC. apply in_map, Hq. }
+    change ((ok, eo) :: (zk, ez) :: rev A) with ([(ok, eo); (zk, ez)] ++ rev A). rewrite owned_app.
+    rewrite (owned_args Kt (rev A)).
+    2:{ intros q Hq. apply in_rev in Hq. apply HaK. rewrite <- HkA. apply in_map, Hq. }
+    assert (Hm1 : mem ok Kt = false) by (apply mem_false; exact Ho).
+    assert (Hm2 : mem zk Kt = false) by (apply mem_false; exact HzKt).
+    unfold owned_ids. cbn [flat_map fst snd app]. rewrite Hm1, Hm2.
+    reflexivity. }
+  destruct (argents_ids (sp_args p) 0) as [HA1 HA2]. fold A in HA1, HA2.
+  assert (HA2' : forall id, In id (flat_map (fun q => oblock (snd q)) (rev A)) -> (id < n)%N).
+  { intros id Hid. apply in_flat_map in Hid as (q & Hq & Hid). apply in_rev in Hq.
+    assert (In id (flat_map (fun q => oblock (snd q)) A)) by (apply in_flat_map; eauto).
+    apply HA2 in H. unfold n. lia. }
+  constructor.
+  - exact Hkeys.
+  - rewrite Hown. unfold free_ids. cbn [init_w wfree free_l flat_map]. rewrite app_nil_r.
+    constructor; [|constructor; [|apply nodup_flat_map_rev, HA1]].
+    + intros [H|H]; [lia | apply HA2' in H; lia].
+    + intros H. apply HA2' in H. lia.
+  - intros id Hid. rewrite Hown in Hid. unfold free_ids in Hid. cbn [init_w wfree free_l flat_map] in Hid.
+    rewrite app_nil_r in Hid. cbn [init_w wnext]. destruct Hid as [<-|[<-|Hid]]; [lia | lia | apply HA2' in Hid; lia].
+  - intros k e L Hk. destruct (Hin k e L) as [[_ H]|[[_ ->]|[[_ ->]|[H _]]]]; [contradiction| | |].
+    + unfold entry_wf, eo. cbn [ewires ebase eids hd length]. unfold block. cbn [seq map]. rewrite N.add_0_r. repeat split; auto.
+    + unfold entry_wf, ez. cbn [ewires ebase eids hd length]. unfold block. cbn [seq map]. rewrite N.add_0_r. repeat split; auto.
+    + destruct (argents_in _ _ _ _ H) as (b & m & -> & _). unfold entry_wf. cbn. rewrite block_length.
+      split; [|auto]. destruct m; [reflexivity|]. rewrite hd_block by discriminate. reflexivity.
+  - intros k e L He. destruct (Hin k e L) as [[H _]|[[_ ->]|[[_ ->]|[H _]]]]; try discriminate.
+    + destruct (HC _ _ H) as (ids & -> & _). discriminate.
+    + destruct (argents_in _ _ _ _ H) as (b & m & -> & Hm & _). exists (block b m). split; [reflexivity|].
+      rewrite block_length. apply in_lookup; auto.
+  - intros k Hk. unfold Kt in Hk. apply in_map_iff in Hk as (c & <- & Hc0).
+    set (ids := map (fun b : bool => if b then (n + 1)%N else n) (snd c)).
+    exists (mkEntry (match ids with [] => None | b :: _ => Some b end) (Some ids) (Some ids)), ids.
+    split; [|split; [reflexivity|]].
+    + apply Hlk. rewrite HW. apply in_or_app. left. rewrite <- in_rev. unfold C, constents. apply in_map_iff. exists c. auto.
+    + intros id Hid. apply in_map_iff in Hid as (b & <- & _). destruct b; auto.
+  - exists ez, eo. repeat split; auto.
+  - intros v e L. right. intros id Hid. unfold ids_of in Hid. rewrite L in Hid.
+    assert (Wz : exists k e', lookup k (whash (init_w p)) = Some e' /\ ~ In k Kt /\ In n (oblock e') /\ related NC steps0 k v).
+    { exists zk, ez. repeat split; auto; [left; reflexivity | left; apply Hck; left; reflexivity]. }
+    assert (Wo : exists k e', lookup k (whash (init_w p)) = Some e' /\ ~ In k Kt /\ In (n + 1)%N (oblock e') /\ related NC steps0 k v).
+    { exists ok, eo. repeat split; auto; [left; reflexivity | left; apply Hck; right; left; reflexivity]. }
+    destruct (Hin v e L) as [[H _]|[[_ ->]|[[_ ->]|[H Hv]]]].
+    + destruct (HC _ _ H) as (ids & -> & Hids). cbn in Hid. destruct (Hids id Hid) as [->| ->]; auto.
+    + cbn in Hid. destruct Hid as [<-|[]]. exact Wo.
+    + cbn in Hid. destruct Hid as [<-|[]]. exact Wz.
+    + destruct (argents_in _ _ _ _ H) as (b & m & -> & _). cbn in Hid.
+      exists v, (mkEntry None (Some (block b m)) None). repeat split; auto; [apply HaK, Hv | right].
+      unfold fdesc. apply fold_fstep_mono. left. reflexivity.
+  - intros k Hk. split.
+    + intros Hal. split; [|auto]. apply allocated_lookup in Hal as (e & L).
+      destruct (Hin k e L) as [[_ H]|[[-> _]|[[-> _]|[_ H]]]]; [|  | |exact H]; exfalso.
+      * apply (Hck k); [right; right; exact H | exact Hk].
+      * apply (Hck ok); [right; left; reflexivity | exact Hk].
+      * apply (Hck zk); [left; reflexivity | exact Hk].
+    + intros [H _]. rewrite <- HkA in H. apply in_map_iff in H as ([k' e] & <- & H). apply allocated_lookup.
+      exists e. apply Hlk. rewrite HW. apply in_or_app. right. right. right. rewrite <- in_rev. exact H.
+Qed.
+
+Lemma wf_shape : forall steps defd, wf_steps defd steps = true ->
+  Forall (fun s => match iop s with
+                   | ORet => iout s = None /\ iret s = []
+                   | OGC => False
+                   | OCirc => True
+                   | _ => exists o, iout s = Some o /\ iret s = []
+                   end) steps.
+Proof.
+  induction steps as [|s rest IH]; intros defd H; [constructor|].
+  destruct rest as [|s2 rest'].
+  - cbn [wf_steps] in H. constructor; [|constructor]. destruct (iop s); try discriminate.
+    apply andb_prop in H as [H Hr]. apply andb_prop in H as [_ Ho].
+    destruct (iout s); [discriminate|]. destruct (iret s); [auto | discriminate].
+  - remember (s2 :: rest') as rest eqn:Er.
+    assert (Hc : match iop s with
+                 | ORet => iout s = None /\ iret s = []
+                 | OGC => False
+                 | OCirc => True
+                 | _ => exists o, iout s = Some o /\ iret s = []
+                 end /\ wf_steps (outs_of s ++ defd) rest = true).
+    { subst rest. cbn [wf_steps] in H.
+      destruct (iop s) eqn:Eop; try discriminate;
+        repeat (apply andb_prop in H as [H ?]); (split; [|assumption]); try exact I;
+        destruct (iout s) as [o|]; try discriminate;
+        match goal with Hx : (negb (vconst o) && _) = true |- _ => apply andb_prop in Hx as [_ Hx] end;
+        destruct (iret s); try discriminate; eauto. }
+    destruct Hc as [Hc Hw]. constructor; [exact Hc | eapply IH; eauto].
+Qed.
+
+Theorem gc_sound p steps g :
+  wf_prog p steps = true -> gc_fixed steps = Some g -> no_premature_reuse p g = true.
+Proof.
+  intros Hwf Hg. unfold wf_prog in Hwf.
+  apply andb_prop in Hwf as [Hwf Hsteps]. apply andb_prop in Hwf as [Hssa Hnd].
+  apply nodupb_NoDup in Hnd.
+  set (Kt := map fst (sp_consts p)).
+  set (NC := outs_l steps ++ map fst (sp_args p)).
+  set (n := total (sp_args p)).
+  rewrite forallb_forall in Hsteps.
+  assert (Hck : forall k, In k (const_keys p) -> ~ In k NC).
+  { intros k Hk Hin. apply in_app_or in Hin as [Hin|Hin].
+    - unfold outs_l in Hin. apply in_flat_map in Hin as (s & Hs & Ho).
+      specialize (Hsteps s Hs). unfold step_ok in Hsteps.
+      repeat (apply andb_prop in Hsteps as [Hsteps ?]).
+      match goal with Hx : forallb (fun o => negb (mem o (const_keys p))) (outs_of s) = true |- _ =>
+        rewrite forallb_forall in Hx; specialize (Hx k Ho) end.
+      rewrite (proj2 (mem_In _ _) Hk) in *. discriminate.
+    - apply NoDup_app_iff in Hnd as (_ & _ & Hd). exact (Hd k Hin Hk). }
+  unfold no_premature_reuse.
+  pose proof (stream_init_alloc p []) as Hi. rewrite (init_alloc_eq p Hnd) in Hi. injection Hi as Hw Hz.
+  rewrite Hw, Hz.
+  pose proof (init_ginv p steps Hnd Hck) as G0. fold Kt NC n in G0.
+  assert (Hone : nth 0 (ids_of (init_w p) (sp_one_key p)) 0%N = (n + 1)%N).
+  { unfold ids_of. rewrite (in_lookup (sp_one_key p) (mkEntry (Some (n + 1)%N) (Some [(n + 1)%N]) (Some [(n + 1)%N])) _ (g_keys _ _ _ _ _ _ _ _ _ _ _ G0)).
+    - reflexivity.
+    - unfold init_w. cbn [whash]. apply in_or_app. right. left. reflexivity. }
+  rewrite Hone.
+  assert (Hsok : Forall (sok NC (sp_args p)) steps).
+  { pose proof (wf_shape _ _ Hssa) as Hsh. rewrite Forall_forall in *. intros s Hs.
+    specialize (Hsh s Hs). specialize (Hsteps s Hs). unfold step_ok in Hsteps.
+    repeat (apply andb_prop in Hsteps as [Hsteps ?]).
+    split.
+    - destruct (iop s); auto; discriminate.
+    - intros i Hi. split.
+      + intros Hc.
+        match goal with Hx : forallb (fun i => if vconst i then _ else _) (iin s) = true |- _ =>
+          rewrite forallb_forall in Hx; specialize (Hx i Hi); rewrite Hc in Hx end.
+        intros Hin. assert (Hm : mem (vid i) (map fst (sp_args p) ++ flat_map outs_of steps) = true).
+        { apply mem_In. apply in_app_or in Hin as [Hin|Hin]; apply in_or_app; auto. }
+        rewrite Hm in *. discriminate.
+      + intros b Hb.
+        match goal with Hx : forallb (fun i => match lookup (vid i) (sp_args p) with _ => _ end) (iin s) = true |- _ =>
+          rewrite forallb_forall in Hx; specialize (Hx i Hi); rewrite Hb in Hx end.
+        apply Nat.eqb_eq. assumption. }
+  assert (HzK : ~ In (sp_zero_key p) Kt /\ ~ In (sp_one_key p) Kt).
+  { unfold const_keys in Hnd. apply NoDup_app_iff in Hnd as (_ & Hc & _).
+    inversion Hc as [|? ? Hz0 Hc1]; subst. inversion Hc1 as [|? ? Ho0 _]; subst.
+    split; [intros H; apply Hz0; right; exact H | exact Ho0]. }
+  destruct HzK as [HzK HoK].
+  assert (HzN : ~ In (sp_zero_key p) NC) by (apply Hck; left; reflexivity).
+  assert (HoN : ~ In (sp_one_key p) NC) by (apply Hck; right; left; reflexivity).
+  assert (HkN : forall k, In k Kt -> ~ In k NC) by (intros k Hk; apply Hck; right; right; exact Hk).
+  assert (Hwfl : wfl (map fst (sp_args p)) steps) by (apply wf_steps_wfl, Hssa).
+  assert (HNC : forall k, In k NC <-> In k (outs_l steps ++ map fst (sp_args p))) by (intros k; reflexivity).
+  assert (Hform : gcform steps steps g) by (eapply gc_fixed_form; eauto).
+  apply (run_npr Kt (sp_zero_key p) (sp_one_key p) n (n + 1)%N NC steps (sp_args p)) with
+      (circs := sp_circs p) (later := steps) (E := []) (defd := map fst (sp_args p)) (gcd := []); auto.
+  - intros k Hk. reflexivity.
+  - intros u [].
+Qed.
